@@ -17,7 +17,9 @@
 (***************************************************************************)
 EXTENDS Naturals, Sequences, TLC, Json, CSV, IOUtils
 CONSTANTS Sizes, WrapUse, ChainUse, BreakUse, Pairs,   \* Pairs: also enumerate w1 # w2
-          ChainScale, PatternWraps   \* chains are ChainScale times longer than nests; wraps that are also patterns
+          ChainScale, PatternWraps,  \* chains are ChainScale times longer than nests; wraps that are also patterns
+          BlockUse,                  \* block constructors (indentation nesting)
+          Prefixes                   \* lengths of the flat statement list put before a family instance (0 = none)
 
 W(id, pre, post) == [id |-> id, pre |-> pre, post |-> post]
 Wraps == <<
@@ -36,6 +38,13 @@ Chains == <<
   C("ornot", "", "not a or ", "b\n"), C("andand", "", "a && ", "b\n"), C("pipe", "$(a ", "| b ", ")\n"), C("semis", "", "x; ", "y\n"), C("kwargs", "f(", "k=a, ", ")\n"), \* 16-20
   C("targets", "", "a = ", "b\n"), C("tupletarget", "", "a, ", "b = c\n"), C("withitems", "with ", "a as b, ", "c: pass\n"), C("decorators", "", "@d\n", "def f(): pass\n"), C("params", "def f(", "p, ", "q): pass\n"), \* 21-25
   C("fstrfields", "f'", "{a}b", "'\n"), C("matchcases", "match x:\n", "    case 1:\n        pass\n", ""), C("orpattern", "match x:\n    case ", "1 | ", "2:\n        pass\n"), C("globalnames", "global a", ", b", "\n"), C("macroargs", "f!(", "a b, ", "c)\n") \* 26-30
+>>
+\* block constructors: header line, and the lines that close the block at the header's own indentation ("" = none)
+B(id, head, post) == [id |-> id, head |-> head, post |-> post]
+Blocks == <<
+  B("if", "if a:", ""), B("while", "while a:", ""), B("for", "for i in y:", ""), B("def", "def f():", ""), B("class", "class K:", ""),          \* 1-5
+  B("with", "with c as d:", ""), B("try", "try:", "finally:"), B("ifelse", "if a:", "else:"), B("tryexcept", "try:", "except E:"),               \* 6-9
+  B("asyncdef", "async def g():", ""), B("elifchain", "if a:", "elif b:"), B("withmacro", "with! m:", ""), B("matchcase", "match x:", "")        \* 10-13
 >>
 Breakers == <<"valid", "unclosed", "wrong_closer", "doubled", "missing_operand", "trailing">>
 
@@ -66,6 +75,23 @@ ChainText(c, n, br) ==
     \o (IF br = "unclosed" /\ c.tail # "" THEN "(\n" ELSE IF br = "missing_operand" THEN "+ \n" ELSE IF br = "wrong_closer" THEN "]\n" ELSE c.tail)
     \o (IF br = "trailing" THEN "1 1\n" ELSE "")
 
+\* n nested blocks; the innermost body is the core statement; blocks with a closing clause get "<post>\n<indent>pass"
+RECURSIVE BlockOpen(_, _, _), BlockClose(_, _, _)
+Ind(i) == Rep("    ", i)
+BlockOpen(b, i, n) == IF i = n THEN "" ELSE Ind(i) \o b.head \o "\n" \o BlockOpen(b, i + 1, n)
+BlockClose(b, i, n) == IF i = n \/ b.post = "" THEN "" ELSE BlockClose(b, i + 1, n) \o Ind(i) \o b.post \o "\n" \o Ind(i + 1) \o "pass\n"
+BlockCore(br) == CASE br = "doubled" -> "1 1" [] br = "missing_operand" -> "1 +" [] br = "unclosed" -> "(1" [] br = "wrong_closer" -> "1]" [] OTHER -> "z = 1"
+BlockText(b, n, br) ==
+  BlockOpen(b, 0, n) \o Ind(n) \o BlockCore(br) \o "\n" \o BlockClose(b, 0, n) \o (IF br = "trailing" THEN "1 1\n" ELSE "")
+\* match statements nest through their case bodies: two lines per level
+RECURSIVE MatchOpen(_, _)
+MatchOpen(i, n) == IF i = n THEN "" ELSE Ind(2 * i) \o "match x:\n" \o Ind(2 * i + 1) \o "case 1:\n" \o MatchOpen(i + 1, n)
+MatchText(n, br) == MatchOpen(0, n) \o Ind(2 * n) \o BlockCore(br) \o "\n" \o (IF br = "trailing" THEN "1 1\n" ELSE "")
+FamText(b, n, br) == IF b.id = "matchcase" THEN MatchText(n, br) ELSE BlockText(b, n, br)
+RECURSIVE RepFast(_, _)
+RepFast(s, n) == IF n = 0 THEN "" ELSE IF n % 2 = 0 THEN LET h == RepFast(s, n \div 2) IN h \o h ELSE s \o RepFast(s, n - 1)
+Flat(p) == RepFast("x = 1\n", p)
+
 VARIABLE pick
 Init == pick = [k |-> "none"]
 Next == /\ pick.k = "none"
@@ -81,6 +107,13 @@ Next == /\ pick.k = "none"
                 /\ pick' = [k |-> "nest", fam |-> "target:" \o TargetHosts[h][1] \o ":" \o Wraps[a].id \o "/" \o Wraps[b].id, br |-> Breakers[br], n |-> n,
                             src |-> TargetHosts[h][2] \o NestPre(Wraps[a], Wraps[b], n) \o "a" \o NestPost(Wraps[a], Wraps[b], n)
                                       \o (IF Breakers[br] = "trailing" THEN " 1" ELSE "") \o TargetHosts[h][3] \o "\n"]
+           \/ \E b \in BlockUse : \E br \in BreakUse : \E n \in Sizes : \E p \in Prefixes :
+                /\ (p > 0 => Breakers[br] \in {"valid", "missing_operand"})
+                /\ pick' = [k |-> "block", fam |-> (IF p > 0 THEN "after-flat-prefix:" ELSE "") \o Blocks[b].id, br |-> Breakers[br], n |-> n,
+                            src |-> Flat(p) \o FamText(Blocks[b], n, Breakers[br])]
+           \/ \E a \in WrapUse \cap {1, 2, 4, 6, 8, 11} : \E n \in Sizes : \E p \in Prefixes \ {0} :
+                pick' = [k |-> "nest", fam |-> "after-flat-prefix:" \o Wraps[a].id, br |-> "valid", n |-> n,
+                         src |-> Flat(p) \o NestText(Wraps[a], Wraps[a], n, "valid")]
            \/ \E c \in ChainUse : \E br \in BreakUse : \E n \in Sizes :
                 pick' = [k |-> "chain", fam |-> Chains[c].id, br |-> Breakers[br], n |-> n, src |-> ChainText(Chains[c], n * ChainScale, Breakers[br])]
 Export == pick.k # "none" => CSVWrite("%1$s", <<ToJson(pick)>>, IOEnv.OUT)
